@@ -41,6 +41,7 @@ type hostileBackend struct {
 	keptFlush  http.Flusher
 	ReadErr    string
 	BodyBytes  int
+	Spin       bool
 	readPolicy int
 }
 
@@ -56,13 +57,17 @@ func (hb *hostileBackend) ServeHTTP(w http.ResponseWriter, r *http.Request) {
 	switch hb.readPolicy {
 	case 0: // read everything
 		buf := make([]byte, 512)
-		for i := 0; i < 100000; i++ {
+		for i := 0; ; i++ {
 			n, err := r.Body.Read(buf)
 			hb.BodyBytes += n
 			if err != nil {
 				if err.Error() != "EOF" {
 					hb.ReadErr = err.Error()
 				}
+				break
+			}
+			if i >= 20000 {
+				hb.Spin = true // reads keep returning without EOF or error: a read loop never ends
 				break
 			}
 		}
